@@ -6,6 +6,8 @@ import "verif/vlib"
 var Registry = map[string]func() *vlib.Plan{
 	"C01": C01Plan,
 	"C02": C02Plan,
+	"C08": C08Plan,
+	"C09": C09Plan,
 	"C12": C12Plan,
 	"C14": C14Plan,
 }
